@@ -49,6 +49,9 @@ frameset noscript template""".split()
 THEMES["pump_tokens"] = ["<%s>" % n for n in PUMP_NAMES]
 THEMES["pump_prefixes"] = ["", "<table>", "<table><tr><td>", "<select>", "<svg>", "<math>", "<ruby>", "<ul>", "<svg><foreignObject>", "<frameset>",
                            "<table><caption>", "<button>", "<dl>"]
+# pending table text x foreign content x formatting (deeper cover on a sub-alphabet)
+THEMES["cover_tbl"] = ["<table>", "<tr>", "<td>", "<caption>", "<math>", "<mi>", "<svg>", "<desc>", "<select>", "x", " ", "</table>", "</mi>",
+                       "</svg>", "<b>", "<p>", "</math>", "<tbody>"]
 CONTEXTS = {
     "doc": [None],
     "common": [None, "div", "td", "select", "table"],
